@@ -15,8 +15,48 @@ struct Entry {
     size: usize,
     align: usize,
     in_op: bool,
+    /// obtained by the code under test through `alloc_zeroed` (or resized from such a block): one of the
+    /// crate's own blocks, whose allocator calls are compared with the model's event reading
+    tracked: bool,
 }
-static mut TABLE: [Entry; TSIZE] = [Entry { addr: 0, size: 0, align: 0, in_op: false }; TSIZE];
+static mut TABLE: [Entry; TSIZE] = [Entry { addr: 0, size: 0, align: 0, in_op: false, tracked: false }; TSIZE];
+const EVMAX: usize = 1 << 16;
+/// (kind, size, new size, alignment) of the allocator calls on the crate's own blocks while capture is on
+static mut EVLOG: [(u8, usize, usize, usize); EVMAX] = [(0, 0, 0, 0); EVMAX];
+static EV_N: AtomicUsize = AtomicUsize::new(0);
+thread_local! { static EV_CAPTURE: Cell<bool> = Cell::new(false); static EV_QUIET: Cell<bool> = Cell::new(false); }
+fn ev_push(kind: u8, a: usize, b: usize, align: usize) {
+    if EV_CAPTURE.try_with(|c| c.get()).unwrap_or(false) && !EV_QUIET.try_with(|c| c.get()).unwrap_or(false) {
+        let n = EV_N.fetch_add(1, SeqCst);
+        if n < EVMAX {
+            unsafe { EVLOG[n] = (kind, a, b, align) };
+        }
+    }
+}
+/// start capturing the allocator calls made on the crate's own blocks by this thread
+pub fn ev_begin() {
+    EV_N.store(0, SeqCst);
+    EV_CAPTURE.with(|c| c.set(true));
+}
+/// stop capturing; the calls in order: `a<size>.<align>` alloc_zeroed, `f<size>.<align>` dealloc,
+/// `r<old>:<new>.<align>` realloc; `None` if there were too many to record
+pub fn ev_take() -> Option<String> {
+    EV_CAPTURE.with(|c| c.set(false));
+    let n = EV_N.load(SeqCst);
+    if n > EVMAX {
+        return None;
+    }
+    let mut s = String::from(" A");
+    for k in 0..n {
+        let (kind, a, b, al) = unsafe { EVLOG[k] };
+        match kind {
+            b'a' => s.push_str(&format!(" a{}.{}", a, al)),
+            b'f' => s.push_str(&format!(" f{}.{}", a, al)),
+            _ => s.push_str(&format!(" r{}:{}.{}", a, b, al)),
+        }
+    }
+    Some(s)
+}
 static LOCK: AtomicBool = AtomicBool::new(false);
 pub static MIN_ALIGN: AtomicBool = AtomicBool::new(false);
 pub static FAIL_AT: AtomicI64 = AtomicI64::new(-1);
@@ -146,8 +186,12 @@ impl Tracker {
             std::ptr::write_bytes(p, 0xA5, layout.size());
         }
         std::ptr::write_bytes(p.add(layout.size()), 0x5A, GUARD);
+        let tracked = op && zeroed;
+        if tracked {
+            ev_push(b'a', layout.size(), 0, layout.align());
+        }
         lock();
-        t_insert(Entry { addr: p as usize, size: layout.size(), align: layout.align(), in_op: op });
+        t_insert(Entry { addr: p as usize, size: layout.size(), align: layout.align(), in_op: op, tracked });
         unlock();
         if op {
             OP_LIVE_BLOCKS.fetch_add(1, SeqCst);
@@ -170,6 +214,9 @@ unsafe impl GlobalAlloc for Tracker {
         match e {
             None => violation(1, layout.size(), layout.align()),
             Some(e) => {
+                if e.tracked {
+                    ev_push(b'f', layout.size(), 0, layout.align());
+                }
                 if e.size != layout.size() {
                     violation(2, layout.size(), e.size);
                 } else if e.align != layout.align() {
@@ -199,11 +246,26 @@ unsafe impl GlobalAlloc for Tracker {
         let real = t_peek(ptr as usize);
         unlock();
         let have = real.map(|e| e.size).unwrap_or(layout.size());
+        let tracked = real.map(|e| e.tracked).unwrap_or(false);
         let nl = Layout::from_size_align_unchecked(new_size, layout.align());
+        if tracked {
+            ev_push(b'r', layout.size(), new_size, layout.align());
+        }
         let p = self.raw_alloc(nl, false);
         if !p.is_null() {
             std::ptr::copy_nonoverlapping(ptr, p, have.min(layout.size()).min(new_size));
+            if tracked {
+                // the resized block stays one of the crate's own; its release below is part of the resize
+                lock();
+                if let Some(mut e) = t_remove(p as usize) {
+                    e.tracked = true;
+                    t_insert(e);
+                }
+                unlock();
+            }
+            let q = EV_QUIET.try_with(|c| c.replace(true)).unwrap_or(false);
             self.dealloc(ptr, layout);
+            let _ = EV_QUIET.try_with(|c| c.set(q));
         }
         p
     }
